@@ -40,7 +40,7 @@ def check(case, res):
     ids = obs.ids
     v = []
     labels = graph.shape_labels(case)
-    if res["status"] == "deadlock":
+    if res["status"] in ("deadlock", "livelock"):
         return Outcome([], labels + ["deadlock_ignored_here"], False, obs.brief())
     executed = obs.executed()
     iv = {t: obs.intervals(t) for t in executed}
